@@ -18,13 +18,13 @@ from nucs.solvers.bound_consistency_algorithm import bound_consistency_algorithm
 from nucs.solvers.shaving_consistency_algorithm import shaving_consistency_algorithm
 
 X = STATS_MAX
-SLOTS = 13
+SLOTS = 15
 (S_PASSES, S_GROW, S_EMPTY, S_REEXEC, S_NOTFIX, S_KNOWN_AFFINE, S_TOP, S_REFAIL, S_SH_PASSES, S_SH_GROW, S_SH_EMPTY,
- S_SH_TOP, S_AFFINE_NOTQ) = range(SLOTS)
+ S_SH_TOP, S_AFFINE_NOTQ, S_LIMIT, S_CUT) = range(SLOTS)
 NAMES = ["bc_passes_monitored", "domain_grew", "empty_domain_after_consistent_pass", "reexecutions",
          "not_a_fixpoint", "not_a_fixpoint_affine_eq_still_queued", "stack_pointer_changed", "reexecution_fails",
          "shaving_calls_monitored", "shaving_domain_grew", "shaving_empty_domain", "shaving_stack_pointer_changed",
-         "not_a_fixpoint_affine_eq_not_queued"]
+         "not_a_fixpoint_affine_eq_not_queued", "pass_limit", "passes_cut_off"]
 _AFFINE_EQ = ALG_AFFINE_EQ
 _NO_SUB_CYCLE = ALG_NO_SUB_CYCLE
 
@@ -71,6 +71,10 @@ def _after_pass(statistics, algorithms, var_bounds, param_bounds, props_dom_indi
 def probe_bc(statistics, algorithms, var_bounds, param_bounds, dom_indices_arr, dom_offsets_arr, props_dom_indices,
              props_dom_offsets, props_parameters, triggers, shr_domains_stack, not_entailed_propagators_stack,
              dom_update_stack, stacks_top, triggered_propagators, compute_domains_addrs, decision_domains):
+    if statistics[X + S_LIMIT] > 0 and statistics[X + S_PASSES] + statistics[X + S_SH_PASSES] >= statistics[X + S_LIMIT]:
+        # logical pass budget (bounded runs on large models): from here on every pass fails, the search unwinds
+        statistics[X + S_CUT] += 1
+        return PROBLEM_INCONSISTENT
     top = stacks_top[0]
     before = shr_domains_stack[top].copy()
     status = bound_consistency_algorithm(
@@ -91,6 +95,10 @@ def probe_bc(statistics, algorithms, var_bounds, param_bounds, dom_indices_arr, 
 def probe_shaving(statistics, algorithms, var_bounds, param_bounds, dom_indices_arr, dom_offsets_arr, props_dom_indices,
                   props_dom_offsets, props_parameters, triggers, shr_domains_stack, not_entailed_propagators_stack,
                   dom_update_stack, stacks_top, triggered_propagators, compute_domains_addrs, decision_domains):
+    if statistics[X + S_LIMIT] > 0 and statistics[X + S_PASSES] + statistics[X + S_SH_PASSES] >= statistics[X + S_LIMIT]:
+        # logical pass budget (bounded runs on large models): from here on every pass fails, the search unwinds
+        statistics[X + S_CUT] += 1
+        return PROBLEM_INCONSISTENT
     top = stacks_top[0]
     before = shr_domains_stack[top].copy()
     status = shaving_consistency_algorithm(
@@ -123,8 +131,9 @@ def register():
     return _IDX
 
 
-def arm(solver):
+def arm(solver, pass_limit=0):
     solver.statistics = np.zeros(STATS_MAX + SLOTS, dtype=np.int64)
+    solver.statistics[X + S_LIMIT] = pass_limit
 
 
 def read(solver):
